@@ -209,6 +209,43 @@ func exercise(x *h.X, c *cfgs.Cfg, a tink.AEAD, level int) {
 			}
 		}
 	}
+	// the caller REUSES its plaintext / AD buffers back to back (same slices, new contents): each call must work on the
+	// contents at that call (an implementation keeping an argument, or something derived from it, by reference does not)
+	{
+		ptA, adA := ref.Pattern(2, 37), ref.Pattern(3, 21)
+		ptB, adB := ref.KeyBytes("c01-reuse-pt", 37), ref.KeyBytes("c01-reuse-ad", 21)
+		ptBuf, adBuf := bytes.Clone(ptA), bytes.Clone(adA)
+		ct1, err1 := a.Encrypt(ptBuf, adBuf)
+		copy(ptBuf, ptB)
+		copy(adBuf, adB)
+		ct2, err2 := a.Encrypt(ptBuf, adBuf)
+		x.Eval(4)
+		if err1 != nil || err2 != nil {
+			x.Fail("encrypt-error", "%s: Encrypt on reused buffers: %v %v", cfg, err1, err2)
+			return
+		}
+		if k, why := c.CheckWire(ct2, ptB, adB); k != "" {
+			x.Fail("buffer-reuse", "%s: plaintext/AD buffers rewritten in place between two Encrypt calls: second ciphertext is not an encryption of the second contents (%s: %s)", cfg, k, why)
+			return
+		}
+		ctBuf, adBuf2 := bytes.Clone(ct1), bytes.Clone(adA)
+		if got, err := a.Decrypt(ctBuf, adBuf2); err != nil || !bytes.Equal(got, ptA) {
+			x.Fail("roundtrip", "%s: Decrypt of the first ciphertext: %v", cfg, err)
+			return
+		}
+		copy(adBuf2, adB)
+		if _, err := a.Decrypt(ctBuf, adBuf2); err == nil {
+			x.Fail("buffer-reuse", "%s: AD buffer rewritten in place between two Decrypt calls: the first ciphertext is still accepted under the second AD", cfg)
+			return
+		}
+		if len(ct2) == len(ctBuf) {
+			copy(ctBuf, ct2)
+			if got, err := a.Decrypt(ctBuf, adBuf2); err != nil || !bytes.Equal(got, ptB) {
+				x.Fail("buffer-reuse", "%s: ciphertext and AD buffers rewritten in place: the second ciphertext is not decrypted to the second plaintext: %v", cfg, err)
+				return
+			}
+		}
+	}
 	// reverse interop
 	for ni, nonce := range c.RefNonces() {
 		for _, m := range reverseDomain(level) {
